@@ -38,6 +38,10 @@ def run_impl(prop, cases, hashseed, per_case_timeout, env_extra=None):
     env["PYTHONWARNINGS"] = "ignore"
     if common.REPO != "/repo":  # development: run the implementation from a scratch worktree
         env["PYTHONPATH"] = common.REPO
+    # one BLAS thread per worker: 16 workers × a thread pool per core each made single cases exceed the watchdog on a loaded machine
+    # (spurious "Timeout" results); the matrices of the harness are tiny
+    for var in ("OPENBLAS_NUM_THREADS", "OMP_NUM_THREADS", "MKL_NUM_THREADS"):
+        env.setdefault(var, "1")
     if env_extra:
         env.update(env_extra)
     while todo:
